@@ -57,6 +57,10 @@ PROGRAMS = [
     P('rmw_v', r(1, 'v'), w(1, 'v', 'v')),
     P('rv_wx', r(1, 'v'), w(1, 'x')),
     P('blind_v', w(1, 'v')),
+    # a checked attribute declared after the excluded ones, read together with an excluded one
+    P('rf_rz_wx', r(1, 'f'), r(1, 'z'), w(1, 'x')),
+    P('rn_rmw_z', r(1, 'n'), r(1, 'z'), w(1, 'z', 'z')),
+    P('blind_z', w(1, 'z')),
     # read via query
     P('qx_wy', ('selq', 'x'), w(1, 'y')),
     P('getby_x_wy', ('getby', 1, 'x'), w(1, 'y')),
@@ -79,7 +83,7 @@ PROGRAMS = [
 BY_NAME = {p['name']: p for p in PROGRAMS}
 TRIPLE_CORE = ['rmw_x', 'ry_wx', 'blind_y', 'rmw_f', 'fu_rmw_x', 'del_1']
 QUICK_CORE = ['rmw_x', 'rmw_s', 'ry_wx', 'rx_wy', 'x_from_y', 'blind_x', 'blind_y', 'rmw_f', 'rf_wx', 'blind_f', 'rn_wx', 'blind_n',
-              'rv_wx', 'blind_v', 'qx_wy', 'fu_rmw_x', 'ry_then_fu_wx', 'nonopt_rmw_x', 'ry_load_wx', 'del_1']
+              'rv_wx', 'blind_v', 'rf_rz_wx', 'blind_z', 'qx_wy', 'fu_rmw_x', 'ry_then_fu_wx', 'nonopt_rmw_x', 'ry_load_wx', 'del_1']
 QUICK_TRIPLE_CORE = ['rmw_x', 'ry_wx', 'blind_y', 'fu_rmw_x']
 XCHECK = [('rmw_x', 'ry_wx'), ('rmw_x', 'fu_rmw_x'), ('blind_y', 'ry_load_wx')]
 
@@ -101,7 +105,7 @@ MONITORS = ('attribution', 'composition', 'stale', 'spurious', 'unexpected')
 
 def judge(v, counters):
     out = []
-    if v.x.deadlock: out.append(('deadlock|%s' % '+'.join(sorted(p['name'] for p in v.progs)), 'no enabled thread while some thread is unfinished'))
+    if v.x.deadlock: out.append(('deadlock|%s' % '+'.join(sorted(L.sclass(p) for p in v.progs)), 'no enabled thread while some thread is unfinished'))
     out += L.mon_commit_attribution(v)
     out += L.mon_composition(v, counters)
     out += L.mon_stale_read(v, counters)
@@ -176,15 +180,16 @@ def run(ctx):
     L.xcheck(ctx, agg, results)
     pg_part(ctx)
     c = ctx.counters
-    ctx.guard('schedules in which OptimisticCheckError occurred', c.get('OptimisticCheckError', 0), 500)
-    ctx.guard('schedules in which UnrepeatableReadError occurred', c.get('UnrepeatableReadError', 0), 5)
-    ctx.guard('control attribute changed under a committing reader without an error', c.get('control_changed_silently', 0), 20)
-    ctx.guard('lost updates observed (and exempt) on control attributes', c.get('control_lost_update', 0), 20)
-    ctx.guard('checked reads still valid at commit', c.get('reads_still_valid_at_commit', 0), 500)
-    ctx.guard('executions with a session disabled on the provider lock', c.get('executions_with_a_session_waiting_on_the_lock', 0), 500)
-    ctx.guard('program pairs with more than one distinct outcome', agg['per_kind']['pair']['tuples_with_more_than_one_outcome'], 100)
-    ctx.guard('PostgreSQL UPDATE statements with a non-empty read set', c.get('pg_updates_with_nonempty_read_set', 0), 8)
-    ctx.guard('all-points cross-check tuples', c.get('xcheck_tuples_all_points_outcomes_contained', 0), 2)
+    L.guards(ctx, [
+        ('schedules in which OptimisticCheckError occurred', c.get('OptimisticCheckError', 0), 500),
+        ('schedules in which UnrepeatableReadError occurred', c.get('UnrepeatableReadError', 0), 5),
+        ('control attribute changed under a committing reader without an error', c.get('control_changed_silently', 0), 20),
+        ('lost updates observed (and exempt) on control attributes', c.get('control_lost_update', 0), 20),
+        ('checked reads still valid at commit', c.get('reads_still_valid_at_commit', 0), 500),
+        ('executions with a session disabled on the provider lock', c.get('executions_with_a_session_waiting_on_the_lock', 0), 500),
+        ('program pairs with more than one distinct outcome', agg['per_kind']['pair']['tuples_with_more_than_one_outcome'], 100),
+        ('PostgreSQL UPDATE statements with a non-empty read set', c.get('pg_updates_with_nonempty_read_set', 0), 8),
+        ('all-points cross-check tuples', c.get('xcheck_tuples_all_points_outcomes_contained', 0), 2)])
     out = L.coverage(ctx, agg)
     ctx.cov.update(programs=len(PROGRAMS),
                    bounds=('pairs: preemption bound 2 inside the %d-program core, bound 1 otherwise; triples of %d programs: bound 1'
